@@ -1135,6 +1135,26 @@ func pathToCoqPath(p string) string {
 // TODO: we basically don't handle the package name (determined by the package
 //
 //	statement in Go) differing from the basename of its parent directory
+//
+// IsCoqPathElement reports whether an element of a Go import path becomes a
+// Coq identifier (and so a component of a logical path) under the mapping of
+// '.' and '-' to '_'.
+func IsCoqPathElement(elem string) bool {
+	mapped := pathToCoqPath(elem)
+	if mapped == "" {
+		return false
+	}
+	for i, r := range mapped {
+		switch {
+		case r == '_' || 'a' <= r && r <= 'z' || 'A' <= r && r <= 'Z':
+		case i > 0 && ('0' <= r && r <= '9' || r == '\''):
+		default:
+			return false
+		}
+	}
+	return true
+}
+
 func ImportToPath(pkgPath, pkgName string) string {
 	coqPath := pathToCoqPath(pkgPath)
 	p := path.Dir(coqPath)
